@@ -1066,13 +1066,20 @@ fn gen_c17(r: &mut Rng, seed: u64, idx: u64) -> Scenario {
             o.strategy = 3;
         }
     }
+    let mut events = Vec::new();
+    if !grid && faults.is_empty() && r.chance(1, 6) {
+        // the target is killed while the readers are in use
+        let kind = *r.pick(&[CallKind::Vmreadv, CallKind::Pread, CallKind::PtracePeekdata]);
+        events.push(Event { trig: Trigger { kind, nth: r.below(6) as u32, path: None }, what: EventKind::KillProcess });
+        tags.push("target-killed".into());
+    }
     Scenario {
         prop: "C17".into(),
         seed,
         profile: if grid { "c17-boundary-grid".into() } else { "c17-random".into() },
         world: b.world,
         workload: Workload::MemRead(ops),
-        events: Vec::new(),
+        events,
         faults,
         sched: Sched::default(),
         tags,
